@@ -33,9 +33,14 @@ def run(ctx):
                         'conservation as numeric facts of the run-time '
                         'matrices']
     fi = ctx.repo.func('mesh_functions', '_map_asm2gap')
-    r1(ctx, fi)
-    r2(ctx, fi)
-    r3(ctx, fi)
+    # R1, the function-internal part of R2 and R3 read source forms of
+    # _map_asm2gap; what they cannot read is decided by the matrices the
+    # function returns on the model mesh pairs (C10.R7, rules/_f_c10.py)
+    from . import _f_c10
+    cv = _ByValue(ctx, fi, _f_c10.evaluate(ctx))
+    r1(cv, fi)
+    r2(cv, fi)
+    r3(cv, fi)
     r4(ctx)
     ctx.min_instances('C10.R4', 3)
     r5(ctx)
@@ -47,6 +52,47 @@ def run(ctx):
 
 def _s(e):
     return ' '.join(src(e).split())
+
+
+class _ByValue:
+    """The context as seen by r1 / r2 / r3.  A clause about the inside of
+    `_map_asm2gap` (keys below) whose recorded source form is not found is
+    not rejected when the value rule C10.R7 evaluated the function as
+    written on every model mesh pair and found both matrices exactly right:
+    the clause is then a fact about those matrices (overlap / width, same
+    corner fold, order, zero padding, identity blocks), whatever the
+    spelling.  If R7 reports anything -- or did not cover all pairs -- every
+    form violation stands as before.  Clauses about other functions (the
+    caller's storage keys, map_across_gap, the call sites) are never
+    deferred."""
+    FORM_KEYS = ('overlap shape', 'overlap entries', 'walk condition',
+                 'walk advance', 'walk start', 'widths', 'f2c normaliser',
+                 'c2f normaliser', 'corner fold', 'return order', 'padding',
+                 'identity condition', 'identity maps')
+
+    def __init__(self, ctx, fi, verdict):
+        self._ctx, self._fi, self._v = ctx, fi, verdict
+
+    def __getattr__(self, name):
+        return getattr(self._ctx, name)
+
+    def require(self, cond, rule, fi_or_loc, node, what, note='', key=None):
+        if not cond and self._v.all_ok and self._v.n_pairs >= 100 and \
+                fi_or_loc is self._fi and key in [
+                    '%s | %s' % (self._fi.full, k) for k in self.FORM_KEYS]:
+            self._ctx.ok(rule, fi_or_loc, node,
+                         'recorded source form not found; decided on values: '
+                         'both maps exact on all %d model mesh pairs '
+                         '(C10.R7)' % self._v.n_pairs)
+            if key.endswith('| identity condition'):
+                # (r3 reads the identity blocks only under the recorded
+                # condition; they are part of the same value verdict)
+                self._ctx.ok(rule, fi_or_loc, node, 'identity maps: decided '
+                             'on values (C10.R7, coincident and nearly '
+                             'coincident model pairs)')
+            return True
+        return self._ctx.require(cond, rule, fi_or_loc, node, what,
+                                 note=note, key=key)
 
 
 def r1(ctx, fi):
